@@ -3480,6 +3480,11 @@ def c17_oracle(script, rec):
             bad.append("wrapper objects leaked (LeakSanitizer): %s" % " ".join(err.split()[:40]))
         elif "AddressSanitizer" in err or "runtime error" in err or rec["status"].startswith("signal"):
             bad.append("the C++ call crashed: %s %s" % (rec["status"], " ".join(err.split()[:40])))
+    for l in rec["impl"]:
+        if l.startswith("L expath BAD"):
+            f = l.split(" ")
+            bad.append("the SettingException of a failed indexed access carries the path %r, not %r (parent's path + .[index])" % (
+                unhx(f[4]) if len(f) > 4 else None, unhx(f[6]) if len(f) > 6 else None))
     try:
         exps = gen_cpp.doc_expectations(script)
         pairs = align(script, [l for l in rec["impl"]])
